@@ -18,6 +18,8 @@ import (
 	"time"
 	"unicode/utf8"
 
+	"github.com/lmorg/murex/lang"
+
 	"verifharness/coqlit"
 )
 
@@ -27,6 +29,7 @@ type c38Case struct {
 	Params []string `json:"-"` // left/right: one decimal integer
 	In     []string `json:"-"`
 	Pretty bool     `json:"pretty,omitempty"` // json stdin indented
+	Loose  bool     `json:"loose,omitempty"`  // run with `config set proc strict-arrays false`
 }
 
 type c38Obs struct {
@@ -45,10 +48,11 @@ type c38Wire struct {
 	Params []bstr `json:"params"`
 	In     []bstr `json:"in"`
 	Pretty bool   `json:"pretty,omitempty"`
+	Loose  bool   `json:"loose,omitempty"`
 }
 
 func (c c38Case) MarshalJSON() ([]byte, error) {
-	return json.Marshal(c38Wire{c.Dt, c.Op, bstrs(c.Params), bstrs(c.In), c.Pretty})
+	return json.Marshal(c38Wire{c.Dt, c.Op, bstrs(c.Params), bstrs(c.In), c.Pretty, c.Loose})
 }
 
 func (c *c38Case) UnmarshalJSON(b []byte) error {
@@ -56,7 +60,7 @@ func (c *c38Case) UnmarshalJSON(b []byte) error {
 	if err := json.Unmarshal(b, &w); err != nil {
 		return err
 	}
-	*c = c38Case{Dt: w.Dt, Op: w.Op, Params: unbstrs(w.Params), In: unbstrs(w.In), Pretty: w.Pretty}
+	*c = c38Case{Dt: w.Dt, Op: w.Op, Params: unbstrs(w.Params), In: unbstrs(w.In), Pretty: w.Pretty, Loose: w.Loose}
 	return nil
 }
 
@@ -175,6 +179,9 @@ func (c38) Gen(seed int64, tier string, emit func(any)) {
 			}
 			for _, in := range [][]string{{}, {""}, {"a"}, {"b", "a", "", "ab", "B", "a"}, {"é€", "😀a", "aé"}} {
 				emit(c38Case{Dt: dt, Op: op, Params: ps, In: in})
+				if dt == "json" && len(in) < 2 {
+					emit(c38Case{Dt: dt, Op: op, Params: ps, In: in, Loose: true})
+				}
 			}
 		}
 		for _, n := range []string{"0", "1", "-1", "3", "-3", "100", "-100", "1099511627776", "-1099511627776"} {
@@ -206,6 +213,7 @@ func (c38) Gen(seed int64, tier string, emit func(any)) {
 		al := c38Alphabet(dt, rng)
 		c := c38Case{Dt: dt, Op: c38Ops[rng.Intn(len(c38Ops))], In: c38List(rng, dt, al)}
 		c.Pretty = dt == "json" && rng.Intn(4) == 0
+		c.Loose = dt == "json" && rng.Intn(4) == 0
 		switch c.Op {
 		case "prepend", "append":
 			c.Params = c38Params(rng, dt, al, 0, 3)
@@ -289,7 +297,13 @@ func c38Decode(dt string, out []byte) ([]string, bool) {
 }
 
 func c38RunOne(c c38Case, name string, isNot bool) (bool, []string, string, string) {
-	r := arrCallBuiltin(name, isNot, c.Dt, c38Encode(c), c.Params, 30*time.Second)
+	r := arrCallBuiltinCfg(name, isNot, c.Dt, c38Encode(c), c.Params, 30*time.Second, func(p *lang.Process) {
+		if c.Loose {
+			if err := p.Config.Set("proc", "strict-arrays", false, nil); err != nil {
+				die("C38: cannot set strict-arrays: %v", err)
+			}
+		}
+	})
 	if r.Panic || r.Timeout {
 		what := "panic"
 		if r.Timeout {
@@ -353,7 +367,7 @@ func (c38) Run(raw json.RawMessage) Result {
 	if c.Dt == "str" {
 		dt = "DStr"
 	}
-	coq := coqlit.Record("c_dt", dt, "c_op", c38OpCoq(c), "c_in", coqlit.BytesList(c.In),
+	coq := coqlit.Record("c_dt", dt, "c_strict", coqlit.Bool(!c.Loose), "c_op", c38OpCoq(c), "c_in", coqlit.BytesList(c.In),
 		"c_obs", coqlit.Record("o_err", coqlit.Bool(o.Err), "o_out", coqlit.BytesList(o.Out),
 			"o_err2", coqlit.Bool(o.Err2), "o_out2", coqlit.BytesList(o.Out2)))
 	size := "0"
@@ -365,7 +379,7 @@ func (c38) Run(raw json.RawMessage) Result {
 	case len(c.In) >= 10:
 		size = "10+"
 	}
-	return Result{Obs: o, Coq: coq, Nontrivial: len(c.In) >= 2, Class: c.Dt + "/" + c.Op + "/" + size}
+	return Result{Obs: o, Coq: coq, Nontrivial: len(c.In) >= 2, Class: c.Dt + map[bool]string{false: "", true: "-loose"}[c.Loose] + "/" + c.Op + "/" + size}
 }
 
 func (c38) Shrink(raw json.RawMessage) []any {
